@@ -37,6 +37,10 @@ TwinFails(e) == TwinFailsOf(e, e.x, e.obs.twins, e.obs.surr, "")
                 \cup TwinFailsOf(e, e.x2, e.obs.twins2, e.obs.surr2, "[row 1]")
                 \* RecurrencePlot: same twins (as sets), same walk; result shape (surrogates, states, dimension)
                 \cup TwinFailsOf(e, e.x, e.obs.rp_twins, e.obs.rp_surr, "[RecurrencePlot]")
+                \cup (IF \E k \in 1..Len(e.obs.rp_twins_low) : e.obs.rp_twins_low[k] # 0
+                      THEN {"TwinsDef|RecurrencePlot.twins after set_fixed_threshold"} ELSE {})
+                \cup (IF e.obs.rp_twins_back # e.obs.rp_twins
+                      THEN {"TwinsDef|RecurrencePlot.twins after set_fixed_threshold (back)"} ELSE {})
                 \cup (IF e.obs.rp_shape # <<2, Len(Embed(e.x, e.dim, 1)), e.dim>>
                       THEN {"Shape|RecurrencePlot.twin_surrogates"} ELSE {})
 Verdict(e) ==
